@@ -133,36 +133,37 @@ def check(ctx):
             ctx.ok('C19.3', ctx.site(q, vals[0][0]), 'every found attachment is validated (`?`) before any result is returned')
         else:
             ctx.fail('C19.3', ctx.site(q), 'the query does not validate every found attachment before filtering', key='C19.3')
-        # filter closure
-        filt = None
+        # the result as a selection of the validated lookup (filter+collect, or a loop pushing the kept elements)
+        sel = None
         for bi, si, t in acc:
-            for x in walk(t):
-                fl = m_call(x, name='filter', trait='Iterator') if isinstance(x, tuple) and x and x[0] == 'call' else None
-                if fl is not None and fl[1][0] == 'closure' and is_lookup(elem_source(fl[0])):
-                    filt = fl[1]
-        if filt is None:
-            ctx.fail('C19.4', ctx.site(q), 'result is not the validated lookup filtered by a closure', key='C19.4|nofilter')
+            inner = t[3][0] if t[0] == 'agg' and t[2] == 'Ok' else t
+            s_ = selection(F, q, tb, inner, use_block=bi)
+            if s_ is not None and is_lookup(s_.coll) and s_.value == ('elem', s_.coll):
+                sel = s_
+        if sel is None:
+            ctx.fail('C19.4', ctx.site(q), 'result is not the validated lookup filtered by a per-element test', key='C19.4|nofilter')
         else:
-            cb = F.closure(filt[1])
-            ctb = TermBuilder(F, cb)
-            caps = [strip_sites(c) for c in filt[2]]
-            iv = caps.index(P2) if P2 in caps else None
-            ic = caps.index(P3) if P3 in caps else None
-            if iv is None or ic is None:
-                ctx.fail('C19.4', ctx.site(cb), 'filter closure does not capture both filter arguments', key='C19.4|captures')
+            E = sel.elem
+            if sel.kind == 'closure':
+                caps = [strip_sites(c) for c in sel.clo[2]]
+                UV = ('upvar', caps.index(P2)) if P2 in caps else None
+                UC = ('upvar', caps.index(P3)) if P3 in caps else None
+                where = ctx.site(F.closure(sel.clo[1]))
             else:
-                UV, UC = ('upvar', iv), ('upvar', ic)
-                ven = lambda x: x[0] == 'call' and call_name(x) == 'attachment_vendor' and strip_sites(x[2][0]) == P2
-                con = lambda x: x[0] == 'call' and call_name(x) == 'attachment_conforms_to' and strip_sites(x[2][0]) == P2
-                allterms = []
-                for sb, dt in switch_on(ctb, cb, lambda d: True):
-                    allterms.append(strip_sites(dt))
-                ven_t = find_terms(cb, ctb, ven)
-                con_t = find_terms(cb, ctb, con)
-                cmp_v = [x for x in find_terms(cb, ctb, lambda x: x[0] == 'call' and call_name(x) in ('eq', 'ne')) if contains(x, ven) and contains(x, lambda y: y == UV)]
-                cmp_c = [x for x in find_terms(cb, ctb, lambda x: x[0] == 'call' and call_name(x) in ('eq', 'ne')) if contains(x, con) and contains(x, lambda y: y == UC)]
+                UV, UC = P2, P3
+                where = ctx.site(q, sel.header)
+            if UV is None or UC is None:
+                ctx.fail('C19.4', where, 'filter closure does not capture both filter arguments', key='C19.4|captures')
+            else:
+                ven = lambda x: x[0] == 'call' and call_name(x) == 'attachment_vendor' and strip_sites(x[2][0]) == E
+                con = lambda x: x[0] == 'call' and call_name(x) == 'attachment_conforms_to' and strip_sites(x[2][0]) == E
+                ven_t = sel.atoms(ven)
+                con_t = sel.atoms(con)
+                cmps = sel.atoms(lambda x: x[0] == 'call' and call_name(x) in ('eq', 'ne'))
+                cmp_v = [x for x in cmps if contains(x, ven) and contains(x, lambda y: y == UV)]
+                cmp_c = [x for x in cmps if contains(x, con) and contains(x, lambda y: y == UC)]
                 if len(ven_t) != 1 or len(con_t) != 1 or len(cmp_v) != 1 or len(cmp_c) != 1:
-                    ctx.fail('C19.4', ctx.site(cb), 'filter closure atoms not found (vendor=%d conformsTo=%d cmpV=%d cmpC=%d)' % (len(ven_t), len(con_t), len(cmp_v), len(cmp_c)), key='C19.4|atoms')
+                    ctx.fail('C19.4', where, 'filter closure atoms not found (vendor=%d conformsTo=%d cmpV=%d cmpC=%d)' % (len(ven_t), len(con_t), len(cmp_v), len(cmp_c)), key='C19.4|atoms')
                 else:
                     bad = []
                     rows = 0
@@ -176,19 +177,15 @@ def check(ctx):
                             cmp_v[0]: (ve if call_name(cmp_v[0]) == 'eq' else not ve),
                             cmp_c[0]: (ce if call_name(cmp_c[0]) == 'eq' else not ce),
                         }
-                        reach = reach_under(cb, ctb, env)
-                        outs = set()
-                        for bi, si, t in ret_defs(ctb):
-                            if bi in reach:
-                                outs.add(eval_bool(t, env))
+                        outs = sel.keep_values(env)
                         want = ((not vg) or ve) and ((not cg) or (cp and ce))
                         rows += 1
                         if outs != {want}:
                             bad.append(((vg, ve, cg, cp, ce), sorted(map(str, outs)), want))
                     if not bad:
-                        ctx.ok('C19.4', ctx.site(cb), 'filter keeps exactly when (!vg | ve) & (!cg | (cp & ce)): %d valuations' % rows, sample='32 rows agree')
+                        ctx.ok('C19.4', where, 'filter keeps exactly when (!vg | ve) & (!cg | (cp & ce)): %d valuations' % rows, sample='32 rows agree')
                     else:
-                        ctx.fail('C19.4', ctx.site(cb), 'filter truth table differs in %d of %d rows, e.g. (vendor given, vendor equal, conformsTo given, stored present, equal)=%s -> %s, expected %s' % (len(bad), rows, bad[0][0], bad[0][1], bad[0][2]), key='C19.4|table')
+                        ctx.fail('C19.4', where, 'filter truth table differs in %d of %d rows, e.g. (vendor given, vendor equal, conformsTo given, stored present, equal)=%s -> %s, expected %s' % (len(bad), rows, bad[0][0], bad[0][1], bad[0][2]), key='C19.4|table')
     # ---- C19.5 single-result form
     s1 = F.method1('Envelope', 'attachment_with_vendor_and_conforms_to')
     if s1 is None:
@@ -238,22 +235,30 @@ def check(ctx):
     same_as('add_type', lambda t, b: m_call(t, name='add_assertion') is not None and m_call(t, name='add_assertion')[0] == P1 and const_name(m_call(t, name='add_assertion')[1]) == 'IS_A' and contains(m_call(t, name='add_assertion')[2], lambda x: x == P2), 'add_assertion(self, \'isA\', type)')
     same_as('types', lambda t, b: m_call(t, name='objects_for_predicate') is not None and m_call(t, name='objects_for_predicate')[0] == P1 and const_name(m_call(t, name='objects_for_predicate')[1]) == 'IS_A', 'objects_for_predicate(self, \'isA\')')
     def has_pred(t, b):
-        a_ = m_call(t, name='any', trait='Iterator')
-        if a_ is None or a_[1][0] != 'closure':
+        # `any(types(self), |x| digest(x) == digest(type envelope))`, or the loop that returns true on the first such x
+        sr = bool_search(F, b)
+        if sr is None:
             return False
-        src = elem_source(a_[0])
-        ty = m_call(src, name='types', self_suffix='Envelope') or m_call(src, name='objects_for_predicate')
+        ty = m_call(sr.coll, name='types', self_suffix='Envelope') or m_call(sr.coll, name='objects_for_predicate')
         if ty is None or ty[0] != P1:
             return False
-        cb = F.closure(a_[1][1])
-        crt = strip_sites(TermBuilder(F, cb).return_term())
-        e = m_call(crt, name='eq', trait='PartialEq')
-        if e is None:
+        def side(x):
+            d = m_digest(x)
+            if d is None:
+                return ''
+            if d == sr.elem:
+                return 'elem'
+            c = sr.captured(d)
+            if contains(c, lambda y: y == P2) and not contains(c, lambda y: y[0] == 'elem'):
+                return 'type'
+            return ''
+        def is_cmp(x):
+            return x[0] == 'call' and call_name(x) in ('eq', 'ne') and len(x[2]) == 2 and sorted([side(x[2][0]), side(x[2][1])]) == ['elem', 'type']
+        atoms = sr.atoms(is_cmp)
+        if len(atoms) != 1:
             return False
-        l, r = m_digest(e[0]), m_digest(e[1])
-        cap = a_[1][2][0] if a_[1][2] else None
-        cap_ok = cap is not None and contains(cap, lambda x: x == P2)
-        return cap_ok and {l, r} == {P2, ('upvar', 0)}
+        eq_is = call_name(atoms[0]) == 'eq'
+        return sr.hit_values({atoms[0]: eq_is}) == {True} and sr.hit_values({atoms[0]: not eq_is}) == {False}
     same_as('has_type', has_pred, 'any(types(self), |x| digest(x) == digest(envelope(type)))')
     same_as('has_type_envelope', has_pred, 'any(types(self), |x| digest(x) == digest(envelope(type)))')
     for name, atom in (('check_type', 'has_type'), ('check_type_envelope', 'has_type_envelope')):
